@@ -8,3 +8,4 @@ import BV.C15.LemmasRec
 import BV.C15.LemmasFix
 import BV.C15.LemmasV0
 import BV.C15.LemmasAmt2
+import BV.C15.LemmasIdx
